@@ -1948,6 +1948,11 @@ def rule_wrap_w2(ctx):
             continue
         det["class"] = ent["class"]
         det["reason"] = ent["reason"]
+        if ent.get("repaired"):
+            ctx.bad(rule, keyi, where, fn.short, detail=det,
+                    msg="a wrap loop `while (v cmp C) v -+= K` is back in a function that had been repaired "
+                    "(%s); its operand is %s: %s" % (ent["repaired"].split(":")[0], ent["class"], ent["reason"]))
+            continue
         if len(vars_) > ent.get("vars", 0):
             ctx.bad(rule, keyi, where, fn.short, detail=det,
                     msg="%d wrapped variables, only %d were read and classified (%s): a new wrap loop appeared"
@@ -1967,7 +1972,7 @@ def rule_wrap_w2(ctx):
         else:
             raise AnalysisBroken("R-WRAP: unknown class %r for %s in tables/lin.json" % (ent["class"], sig))
     for sig in tab:
-        if sig not in seen:
+        if sig not in seen and not tab[sig].get("repaired"):
             ctx.note("R-WRAP W2: table entry %s has no wrap loop any more (rewritten or removed)" % sig)
     # 14 on the tree as read; the floor leaves room for the reported sites to be rewritten with fmod
     ctx.floor(rule, 6, len(sites), "functions with wrap loops")
